@@ -24,7 +24,31 @@ class SFunc:
     def oracle(self, x):
         g, f = S.WORLD.point(), S.WORLD.expr()
         self.log.append(('oracle', x, g, f))
+        self.__dict__.setdefault('_known', []).append((x, g, f))
         return g, f
+
+    def _is_already_evaluated_on_point(self, point):
+        # part of the real interface a step might consult: answered from what this stand-in was asked before, and RECORDED (a step is documented to
+        # record its samples whatever was evaluated earlier)
+        self.log.append(('lookup', point))
+        for (x, g, f) in self.__dict__.get('_known', []):
+            if x is point:
+                return g, f
+        return None
+
+    def __getattr__(self, attr):
+        # anything else a step touches on the function (its lists, for instance) is recorded as an effect outside the documented interface
+        if attr.startswith('__'):
+            raise AttributeError(attr)
+        fn = self
+
+        class Logged(list):
+            def append(self_, item):
+                fn.log.append(('direct:' + attr, item))
+                list.append(self_, item)
+        v = Logged()
+        self.__dict__[attr] = v
+        return v
 
     def gradient(self, x, name=None): return self.oracle(x)[0]
     subgradient = gradient
@@ -85,7 +109,7 @@ class StepCheck:
 
 
 def shape(log):
-    return [e[0] for e in log]
+    return [e[0] for e in log if e[0] != 'lookup']          # a look-up changes nothing: not an effect
 
 
 def check_steps():
@@ -284,18 +308,28 @@ def c_inexact_proximal():
 
 
 def c_epsilon_subgradient():
+    out = []
+    for label in ('', 'f-already-sampled-at-x0'):
+        out += _epsilon_subgradient(label)
+    return out
+
+
+def _epsilon_subgradient(label):
     gamma, hyps = fresh()
     step = load_step('epsilon_subgradient_step')
     f, x0 = SFunc('f'), S.WORLD.point('x0')
+    if label:
+        f.oracle(x0)            # the function was evaluated at x0 before the step (e.g. by an initial condition on f(x0))
+        f.log.clear()
     x, g0, f0, eps = step(x0, f, gamma)
-    k = StepCheck('epsilon_subgradient_step')
+    k = StepCheck('epsilon_subgradient_step', label)
     k.exactly('records', sorted(shape(f.log)), sorted(['value', 'add_point', 'add_constraint']), 'value at x0, one sample, one side constraint')
     if sorted(shape(f.log)) == sorted(['value', 'add_point', 'add_constraint']):
         val = [e for e in f.log if e[0] == 'value'][0]
         y, gy, fy = [e for e in f.log if e[0] == 'add_point'][0][1]
         c = [e for e in f.log if e[0] == 'add_constraint'][0][1]
         k.exactly('value_at_x0', (val[1] is x0, val[2] is f0), (True, True), 'f0 = f(x0)')
-        k.exactly('sample', (gy is g0, y.leaf is not None, fy.leaf is not None), (True, True, True), 'g0 is a subgradient at a new point y')
+        k.exactly('sample', (gy is g0, y.leaf is not None, y is not x0, fy.leaf is not None), (True, True, True, True), 'g0 is a subgradient at a new point y')
         k.same_point('relation', x, x0 - gamma * g0, hyps, 'x = x0 - gamma g0')
         k.constraint('constraint', c, f0 + (g0 * y - fy) - g0 * x0 - eps, 'inequality', hyps, 'f(x0) + f*(g0) - <g0, x0> <= eps')
     return k.obs
